@@ -9,6 +9,7 @@
 #include <unistd.h>
 #include <sys/syscall.h>
 #include <linux/futex.h>
+#include <pthread.h>
 
 extern "C" { int verif_tso_active = 0; }
 
@@ -17,6 +18,7 @@ static thread_local LT* tls_lt = nullptr;
 static Sched* g_sched = nullptr;
 static sem_t g_wake;
 static bool g_wake_init = false;
+static std::vector<LT*> g_daemons;        // worker threads of the code under test that outlived the run that created them
 static const void* g_tracked[256];
 static int g_ntracked = 0;
 static bool g_focus = false;
@@ -32,6 +34,8 @@ void focus_only(bool on) { g_focus = on; }
 bool is_tracked(const void* a) { for (int i = 0; i < g_ntracked; i++) if (g_tracked[i] == a) return true; return false; }
 int self_id() { return tls_lt ? tls_lt->id : -1; }
 int num_blocked() { int c = 0; if (g_sched) for (auto* lt : g_sched->lts) if (lt->state.load() == ST_BLOCKED) ++c; return c; }
+bool daemons_asleep() { int n = 0; if (g_sched) for (auto* lt : g_sched->lts) if (lt->daemon && lt->state.load() != ST_DONE) { if (lt->state.load() != ST_BLOCKED) return false; ++n; } return n > 0; }
+bool is_done(int t) { return !g_sched || t >= (int)g_sched->lts.size() || g_sched->lts[t]->state.load() == ST_DONE; }
 bool is_blocked(int t) { return g_sched && g_sched->lts[t]->state.load() == ST_BLOCKED; }
 
 static void yield_to_sched(LT* lt, int st) {
@@ -81,9 +85,11 @@ void Sched::spawn(int n, std::function<void(int)> body, const std::vector<int>& 
         sem_post(&lt->go);     // let it run to its first schedule point
         sem_wait(&g_wake);
     }
+    for (LT* d : g_daemons) { d->id = (int)lts.size(); lts.push_back(d); }
+    g_daemons.clear();
 }
 
-bool Sched::all_done() const { for (auto* lt : lts) if (lt->state.load() != ST_DONE) return false; return true; }
+bool Sched::all_done() const { for (auto* lt : lts) if (!lt->daemon && lt->state.load() != ST_DONE) return false; return true; }
 
 bool Sched::step(int t) {
     LT* lt = lts[t];
@@ -130,11 +136,12 @@ int Sched::run_pct(uint64_t seed, long maxsteps, int depth) {
     int budget = depth;                   // focus-biased change points still available
     long low = 0;                         // next "below everybody" priority (decreasing)
     std::vector<int> idle(nt, 0);
-    int rc;
+    int rc; int last = -1; long streak = 0; long fair = 1500 + (long)(rng() % 1500);
     for (;;) {
-        bool alldone = true; int best = -1; bool wbuf = false;
-        for (auto* lt : lts) { int s = lt->state.load(); if (s != ST_DONE) alldone = false; if (!lt->buf.empty()) wbuf = true;
-            if (s == ST_HOOK && (best < 0 || prio[lt->id] > prio[best])) best = lt->id; }
+        while ((int)prio.size() < n()) { prio.push_back(1 + (long)(rng() % (uint64_t)(depth + nt + 1))); idle.push_back(0); }   // threads created by the code under test
+        bool alldone = true; int best = -1; bool wbuf = false; int nrun = 0;
+        for (auto* lt : lts) { int s = lt->state.load(); if (s != ST_DONE && !lt->daemon) alldone = false; if (!lt->buf.empty()) wbuf = true;
+            if (s == ST_HOOK) { ++nrun; if (best < 0 || prio[lt->id] > prio[best]) best = lt->id; } }
         if (alldone) { rc = RC_OK; break; }
         if (wbuf && (best < 0 || (rng() % 4) == 0)) { for (auto* lt : lts) if (!lt->buf.empty()) { drain_one(lt->id); break; } continue; }
         if (best < 0) { rc = RC_DEADLOCK; break; }
@@ -147,6 +154,9 @@ int Sched::run_pct(uint64_t seed, long maxsteps, int depth) {
         if (focus_cp) { prio[best] = --low; --budget; }
         if (last_change != before || last_change == steps) idle[best] = 0; else if (++idle[best] >= 40) { prio[best] = --low; idle[best] = 0; }
         for (long cp : cps) if (cp == steps) { prio[best] = --low; break; }
+        // eventual fairness: a thread that keeps the processor for very long while others could run is pre-empted (a waiter that spins
+        // *with* side effects - re-registering in a wait set, say - would otherwise starve the thread it waits for)
+        if (best == last) { if (++streak >= fair && nrun > 1) { prio[best] = --low; streak = 0; } } else { last = best; streak = 0; }
     }
     g_est_len = (g_est_len * 7 + steps) / 8;
     return rc;
@@ -158,7 +168,7 @@ int Sched::run_random(uint64_t seed, long maxsteps, int switch_den) {
     int cur = -1;
     for (;;) {
         std::vector<int> r, wb; bool alldone = true;
-        for (auto* lt : lts) { int s = lt->state.load(); if (s != ST_DONE) alldone = false; if (s == ST_HOOK) r.push_back(lt->id); if (!lt->buf.empty()) wb.push_back(lt->id); }
+        for (auto* lt : lts) { int s = lt->state.load(); if (s != ST_DONE && !lt->daemon) alldone = false; if (s == ST_HOOK) r.push_back(lt->id); if (!lt->buf.empty()) wb.push_back(lt->id); }
         if (alldone) return RC_OK;
         if (!wb.empty() && (r.empty() || (rng() % 3) == 0)) { drain_one(wb[rng() % wb.size()]); continue; }
         if (r.empty()) return RC_DEADLOCK;
@@ -185,9 +195,9 @@ int Sched::run_schedule(const std::vector<int>& sched, long maxsteps) {
 int Sched::finish(long maxsteps) {
     for (;;) {
         bool alldone = true, any = false;
-        for (auto* lt : lts) {
+        for (size_t i = 0; i < lts.size(); i++) { LT* lt = lts[i];
             int s = lt->state.load();
-            if (s != ST_DONE) alldone = false;
+            if (s != ST_DONE && !lt->daemon) alldone = false;
             if (!lt->buf.empty()) { while (drain_one(lt->id)) {} }
             if (s == ST_HOOK) { any = true; step(lt->id); }
         }
@@ -198,8 +208,24 @@ int Sched::finish(long maxsteps) {
     }
 }
 
+// Library-created threads (workers) that are still running when the scenario threads have finished are run on until they sleep: a worker
+// that is parked at an arbitrary schedule point may hold a lock of the library, and the uncontrolled code that follows the run (tear-down
+// of the scenario's objects on the harness's main thread, the next run's set-up) would block on it for ever.
+void Sched::settle_daemons(long maxsteps) {
+    long lim = steps + maxsteps;
+    for (;;) {
+        bool any = false;
+        for (size_t i = 0; i < lts.size(); i++) { LT* lt = lts[i];
+            if (!lt->buf.empty()) { while (drain_one(lt->id)) {} }
+            if (lt->daemon && lt->state.load() == ST_HOOK) { any = true; step(lt->id); } }
+        if (!any || steps > lim) return;
+    }
+}
+
 void Sched::join_all() {
+    settle_daemons(2000000);
     for (auto* lt : lts) {
+        if (lt->daemon) { if (lt->state.load() != ST_DONE) g_daemons.push_back(lt); continue; }   // a parked worker is adopted by the next run
         if (lt->state.load() == ST_DONE) { lt->th.join(); sem_destroy(&lt->go); delete lt; }
         else lt->th.detach();   // stuck run: the thread stays parked for ever (harness exits soon)
     }
@@ -230,6 +256,33 @@ extern "C" int verif_tso_load(const void* addr, void* out, unsigned size) {
     LT* lt = tls_lt; if (!lt || lt->buf.empty()) return 0;
     for (auto it = lt->buf.rbegin(); it != lt->buf.rend(); ++it)
         if (it->addr == addr && it->size == size) { memcpy(out, it->val, size); return 1; }
+    return 0;
+}
+
+// Threads created by the code under test (RML workers) while a logical thread is running become logical threads themselves ("daemons"):
+// every shared access of a worker is a schedule point too, so scenarios with real workers stay deterministic and fully explored.
+static void* daemon_trampoline(void* p) {
+    LT* lt = (LT*)p;
+    tls_lt = lt;
+    sem_wait(&lt->go);                     // first grant
+    void* r = lt->fn(lt->arg);
+    for (auto& e : lt->buf) apply(e);
+    lt->buf.clear();
+    lt->pend = {nullptr, K_NONE, 0, 0};
+    tls_lt = nullptr;
+    lt->state.store(ST_DONE);
+    sem_post(&g_wake);
+    return r;
+}
+extern "C" int verif_pthread_create(pthread_t* h, const pthread_attr_t* attr, void* (*fn)(void*), void* arg) {
+    LT* cur = tls_lt;
+    if (!cur || !g_sched) return pthread_create(h, attr, fn, arg);
+    LT* lt = new LT; lt->daemon = true; lt->fn = fn; lt->arg = arg; sem_init(&lt->go, 0, 0);
+    lt->pend = {nullptr, K_NONE, 0, 0}; lt->state.store(ST_HOOK);      // parked before its first instruction
+    int rc = pthread_create(h, attr, daemon_trampoline, lt);
+    if (rc != 0) { delete lt; return rc; }
+    lt->id = (int)g_sched->lts.size(); g_sched->lts.push_back(lt);      // safe: the scheduler thread is waiting for the creator's step to end
+    ++g_sched->daemons_created;
     return 0;
 }
 
